@@ -4,6 +4,8 @@
 #include <tapkee/defines.hpp>
 #include <tapkee/tapkee.hpp>
 #include <tapkee/callbacks/dummy_callbacks.hpp>
+#include <tapkee/routines/locally_linear.hpp>
+#include <tapkee/utils/matrix.hpp>
 
 #include "vcommon.hpp"
 
@@ -166,4 +168,93 @@ inline void install_observer()
     obs() = observed();
     tapkee::tapkee_internal::verif_eigen_observer::get() = &observer_fn;
 }
+
+// ---------------------------------------------------------------- mirrored external kernels (oracle values)
+using tapkee::tapkee_internal::LocalNeighbors;
+using tapkee::tapkee_internal::Neighbors;
+using tapkee::tapkee_internal::centerMatrix;
+using tapkee::DenseSelfAdjointEigenSolver;
+// mirrored: the system linear_weight_matrix hands to ldlt(), and the raw solve result
+inline DenseVector mirror_lle_solve(const DenseMatrix& K, IndexType i, const LocalNeighbors& nb, ScalarType tshift)
+{
+    const IndexType k = nb.size();
+    DenseMatrix gram = DenseMatrix::Zero(k, k);
+    DenseVector dots(k);
+    for (IndexType a = 0; a < k; ++a)
+        dots[a] = K(i, nb[a]);
+    for (IndexType a = 0; a < k; ++a)
+        for (IndexType b = a; b < k; ++b)
+            gram(a, b) = K(i, i) - dots(a) - dots(b) + K(nb[a], nb[b]);
+    ScalarType trace = gram.trace();
+    gram.diagonal().array() += tshift * trace;
+    DenseVector rhs = DenseVector::Ones(k);
+    DenseVector w = gram.selfadjointView<Eigen::Upper>().ldlt().solve(rhs);
+    return w;
+}
+
+// mirrored: eigen-decomposition of the centred local Gram matrix (all eigenvalues ascending, eigenvectors)
+inline void mirror_local_eig(const DenseMatrix& K, const LocalNeighbors& nb, DenseVector& values, DenseMatrix& vectors)
+{
+    const IndexType k = nb.size();
+    DenseMatrix gram = DenseMatrix::Zero(k, k);
+    for (IndexType a = 0; a < k; ++a)
+        for (IndexType b = a; b < k; ++b)
+        {
+            gram(a, b) = K(nb[a], nb[b]);
+            gram(b, a) = gram(a, b);
+        }
+    centerMatrix(gram);
+    DenseSelfAdjointEigenSolver solver;
+    solver.compute(gram);
+    values = solver.eigenvalues();
+    vectors = solver.eigenvectors();
+}
+
+inline void print_lle_oracles(std::ostream& out, const DenseMatrix& K, const Neighbors& nb, ScalarType tshift)
+{
+    out << " wraw=";
+    for (size_t i = 0; i < nb.size(); ++i)
+        out << (i ? "|" : "") << show_vector(mirror_lle_solve(K, (IndexType)i, nb[i], tshift));
+}
+
+inline void print_eig_oracles(std::ostream& out, const DenseMatrix& K, const Neighbors& nb, IndexType d)
+{
+    std::ostringstream ev, U;
+    for (size_t i = 0; i < nb.size(); ++i)
+    {
+        DenseVector values;
+        DenseMatrix vectors;
+        mirror_local_eig(K, nb[i], values, vectors);
+        const IndexType k = nb[i].size();
+        ev << (i ? "|" : "") << show_vector(values);
+        if (d <= k)
+            U << (i ? "|" : "") << show_matrix(vectors.rightCols(d));
+        else
+            U << (i ? "|" : "") << "-";
+    }
+    const IndexType k = nb.empty() ? 0 : nb[0].size();
+    out << " rsk=" << vh::num(1 / sqrt(static_cast<ScalarType>(k))) << " ev=" << ev.str() << " U=" << U.str();
+}
+
+inline bool uniform(const Neighbors& nb)
+{
+    for (auto& l : nb)
+        if (l.size() != nb[0].size())
+            return false;
+    return true;
+}
+
+inline DenseMatrix mirror_heats(const DenseMatrix& Dm, const Neighbors& nb, ScalarType width)
+{
+    const IndexType k = nb.empty() ? 0 : nb[0].size();
+    DenseMatrix h(nb.size(), k);
+    for (size_t i = 0; i < nb.size(); ++i)
+        for (IndexType a = 0; a < k; ++a)
+        {
+            ScalarType distance = Dm(i, nb[i][a]);
+            h(i, a) = exp(-distance * distance / width);
+        }
+    return h;
+}
+
 } // namespace v8
